@@ -37,21 +37,24 @@ MANIFEST = dict(
          "switches = s + 2f, zero on identical input, invariance under swapping the haplotypes of either phasing, Hamming = "
          "minimum over correspondences = min(d, n-d), different genotypes = multiset definition, switch errors = changes of "
          "the forced correspondence, agreement vector has exactly `hamming` zeros. Polyploid calculator "
-         "(switchflipcalculator.cpp, model incl. its pruning), ploidy <= 4, all lengths and costs: cost = brute-force minimum "
+         "(switchflipcalculator.cpp, model incl. its pruning), every ploidy (`*_any_ploidy`), all lengths and costs: cost = brute-force minimum "
          "over all sequences of haplotype correspondences; every (switches, flips) pair the back-tracking may return is REALISED "
          "by such a sequence and is a member of the brute-force set of optimal pairs (poly_reported_pair_realised); with the "
          "costs compare_block uses the pair is unique and the lexicographic minimum of (switches+flips, flips) "
          "(poly_fixed_split_unique_lexmin); the optimum and the set of co-optimal pairs are invariant under listing the "
          "haplotypes of either phasing in any order (poly_optimum_perm_invariant) and so is everything compare_block reports "
-         "for ploidy 3, 4 (poly_perm_invariant). Glue of run_compare (sample selection, reader filters incl. --only-snvs, "
+         "for every ploidy >= 3 (poly_perm_invariant_any_ploidy; all polyploid theorems now hold for EVERY ploidy: the state list is "
+         "characterised and equals the specification's enumeration of bijections for all p, Lemmas/C11Perms). Pairwise report: "
+         "DEFINITION `Spec/C11Run.lean` (`c11.runspec`, `c11.pairspec`) compared three-way with the Python oracle, the model and the "
+         "real CLI rows; proved: totals_are_sums, run_compare_rows_are_pair_comparisons. Glue of run_compare (sample selection, reader filters incl. --only-snvs, "
          "variant identity, common chromosomes, all pairs, BED order, multiway table): executable Lean model `c11.run`, tied "
          "to the working tree by real CLI runs; with fixes/F46.patch every assessed diploid block has the shape the diploid "
          "theorems assume (assessed_diploid_blocks_are_complementary)",
     design_ref="DESIGN.md §5 C11, §6 F3",
     note="trusted: Lean kernel, axioms ⊆ {propext, Classical.choice, Quot.sound}; the hand-written model (correspondence is "
          "differential testing: quick ≈ 5 500 cases incl. ≈ 135 + ≈ 100 CLI runs, thorough ≈ 70 000 incl. ≈ 1 800 + ≈ 1 000). "
-         "Not proved in Lean: ploidy > 4; the joint-block / totals part of the model of `compare` against a spec (checked "
-         "against brute-force definitions on every run). Not modelled: HP-tag phasing, --names validation, plots, the printed "
+         "Not proved in Lean: `jointBlocks` = naive group-by and `sfLoop` = run-length decomposition (the two missing pieces of "
+         "`run_compare_meets_spec`; compared on every run). Not modelled: HP-tag phasing, --names validation, plots, the printed "
          "report, allele indices >= 10 (two characters in the haplotype strings). Open findings on the unchanged tree: F45 "
          "(KeyError on a multi-allelic diploid call), F46 (diploid numbers derived from the first haplotype only), F47 "
          "(hash-seed dependent sample column of --tsv-multiway), each with a patch under fixes/",
@@ -669,6 +672,28 @@ def check_cli(ctx, scen, d, n_relabel, replay_relabelled=None):
                 ctx.disagree("c11.pair", req, {x: res["rows"][key][x] for x in NUMERIC}, ans)
             else:
                 ctx.observe("implementation matches the as-coded model, not the repaired one (F3/FC11a behaviour present)")
+    # ---- the Lean DEFINITION of the pairwise report (`Spec.pairSpec`, op `c11.pairspec`) vs the real rows and vs the model (diploid)
+    if p == 2:
+        specs = ctx.model.ask_many([{"op": "c11.pairspec", "t0": r["t0"], "t1": r["t1"]} for _, r in model_reqs])
+        for (key, req), ans, S in zip(model_reqs, answers, specs):
+            row = res["rows"][key]
+            where = f"{key[0]} f{key[1]}<->f{key[2]}: "
+            got = dict(intersection_blocks=int(row["intersection_blocks"]), covered_variants=int(row["covered_variants"]),
+                       assessed_pairs=int(row["all_assessed_pairs"]), switches=frac(float(row["all_switches"])),
+                       sf=list(parse_sf(row["all_switchflips"])), hamming=frac(float(row["blockwise_hamming"])),
+                       diff=int(row["blockwise_diff_genotypes"]), largest_pairs=int(row["largestblock_assessed_pairs"]))
+            want = {x: S[x] for x in ("intersection_blocks", "covered_variants", "assessed_pairs", "switches", "sf", "hamming", "diff")}
+            want["largest_pairs"] = max(S["largest_len"] - 1, 0)
+            for col in want:
+                if got[col] != want[col]:
+                    fail(where + f"{col}: whatshap compare reports {got[col]}, the definition (Lean Spec.pairSpec) gives {want[col]}", "runspec-" + col)
+            if "crash" not in res and sorted(res["bed"].get(key, [])) != sorted(tuple(b) for b in S["bed"]):
+                fail(where + f"--switch-error-bed rows != rows by definition {sorted(S['bed'])} (Lean Spec.pairSpec)", "runspec-bed")
+            if ans != "error":
+                m_ = [(b[0], b[1]["switches"], b[1]["sf"], b[1]["hamming"], b[1]["diff"]) for b in ans["per_block"]]
+                s_ = [(b["positions"], b["switches"], b["sf"], b["hamming"], b["diff"]) for b in S["blocks"]]
+                if m_ != s_ or ans["bed"] != S["bed"] or ans["largest_len"] != S["largest_len"]:
+                    ctx.disagree("c11.pairspec", req, {"blocks": m_, "bed": ans["bed"]}, {"blocks": s_, "bed": S["bed"]})
     if p == 2 and k > 2 and not ("crash" in res and not res.get("multiway_assert")):
         died = False
         for c in sorted(scen.chroms):      # run_compare processes the chromosomes in sorted order
@@ -1000,6 +1025,9 @@ def check_glue(ctx, gs, d, n_relabel=1, replay_relabelled=None):
             ctx.disagree("c11.run", req, {"error": res["error"], "rows": {str(kk): {x: v.get(x) for x in NUMERIC + ['sample', 'het_variants0']}
                                                                        for kk, v in res["rows"].items()},
                                           "bed": res["bedseq"], "multiway": res["multiway"]}, ans)
+    # ---- (b') three-way: Lean definition of the report (`c11.runspec`) vs the CLI rows vs the Python oracle vs the Lean model
+    if p == 2 and not multi:
+        check_runspec(ctx, gs, res, names, req, answers[2], fail)
     # multiway sample column: file order of the distinct names is the only order that does not depend on the hash seed
     if p == 2 and k > 2 and o["ignore"] and res["rc"] == 0 and names is not None and len(set(names)) > 1:
         first = list(dict.fromkeys(names))
@@ -1043,6 +1071,91 @@ def check_glue(ctx, gs, d, n_relabel=1, replay_relabelled=None):
 # ------------------------------------------------------------------------------------------------
 # run
 # ------------------------------------------------------------------------------------------------
+
+def check_runspec(ctx, gs, res, names, req, model_ans, fail):
+    """three-way comparison for a diploid glue scenario: the Lean DEFINITION of the pairwise report (`Spec/C11Run.lean`, op
+    `c11.runspec`: common heterozygous variants, intersection blocks by naive group-by, per block switch errors = correspondence
+    changes, switch/flip = run lengths, Hamming = min over correspondences, totals = sums, first longest block, BED rows,
+    het_variants0) against (1) every row the REAL `whatshap compare` wrote (`ctx.fail`, keys `runspec-*`: the Lean spec is the
+    property predicate here), (2) the Python oracle `G.pair_definitions` (`ctx.disagree c11.runspec-oracle`), (3) the Lean model
+    `c11.run` with the repaired flags (`ctx.disagree c11.runspec`; proved for all inputs as far as `Props.C11.run_compare_meets_spec*`
+    goes)."""
+    spec = ctx.model.ask_many([dict(req, op="c11.runspec")])[0]
+    if "error" in spec or "error" in model_ans:
+        if ("error" in spec) != ("error" in model_ans) or spec.get("error") != model_ans.get("error"):
+            ctx.disagree("c11.runspec", req, model_ans.get("error"), spec.get("error"))
+        return
+    ctx.dist("runspec_checked", True)
+    mchroms = {ch["chrom"]: ch for ch in model_ans["chroms"]}
+    for sc in spec["chroms"]:
+        c = sc["chrom"]
+        mch = mchroms.get(c)
+        for pr in sc["pairs"]:
+            i, j, S = pr["i"], pr["j"], pr["spec"]
+            key = (c, i, j)
+            where = f"{c} f{i}<->f{j}: "
+            # (1) the real rows
+            row = res["rows"].get(key)
+            if row is not None:
+                got = dict(intersection_blocks=int(row["intersection_blocks"]), covered_variants=int(row["covered_variants"]),
+                           assessed_pairs=int(row["all_assessed_pairs"]), switches=frac(float(row["all_switches"])),
+                           sf=list(parse_sf(row["all_switchflips"])), hamming=frac(float(row["blockwise_hamming"])),
+                           diff=int(row["blockwise_diff_genotypes"]),
+                           largest_pairs=int(row["largestblock_assessed_pairs"]), het0=int(row["het_variants0"]))
+                want = dict(intersection_blocks=S["intersection_blocks"], covered_variants=S["covered_variants"],
+                            assessed_pairs=S["assessed_pairs"], switches=S["switches"], sf=S["sf"], hamming=S["hamming"],
+                            diff=S["diff"], largest_pairs=max(S["largest_len"] - 1, 0), het0=pr["het0"])
+                for col in want:
+                    if got[col] != want[col]:
+                        fail(where + f"{col}: whatshap compare reports {got[col]}, the definition (Lean Spec.pairSpec) gives {want[col]}",
+                             "runspec-" + col)
+                cands = [b for b in S["blocks"] if len(b["positions"]) == S["largest_len"]]
+                lgot = (frac(float(row["largestblock_switches"])), list(parse_sf(row["largestblock_switchflips"])),
+                        frac(float(row["largestblock_hamming"])), int(row["largestblock_diff_genotypes"]))
+                if cands and not any(lgot == (b["switches"], b["sf"], b["hamming"], b["diff"]) for b in cands):
+                    fail(where + f"largest block numbers {lgot} are those of no intersection block of maximal length (Lean Spec)", "runspec-largest")
+                if not cands and lgot != (0, [0, 0], 0, 0):
+                    fail(where + f"largest block numbers {lgot} although there is no intersection block", "runspec-largest")
+                if "crash" not in res and sorted(res["bed"].get(key, [])) != sorted(tuple(b) for b in S["bed"]):
+                    fail(where + f"--switch-error-bed rows {sorted(res['bed'].get(key, []))} != rows by definition {sorted(S['bed'])}", "runspec-bed")
+            # (2) the Python oracle
+            if names is not None:
+                t0, t1 = gs.pair_tables(c, i, j, names)
+                D = G.pair_definitions(t0, t1, 2)
+                o_ = dict(common_het=len(D["common"]), intersection_blocks=D["intersection_blocks"], covered_variants=D["covered"],
+                          assessed_pairs=D["pairs"], switches=D["total"]["switches"], hamming=D["total"]["hamming"], diff=D["total"]["diff"],
+                          sfsum=D["total"]["sf_cost"], largest_len=D["longest_len"],
+                          blocks=[([D["common"][v] for v in b], d["switches"], d["hamming"], d["diff"], d["sf_cost"]) for b, _, _, d in D["per_block"]])
+                s_ = dict(common_het=S["common_het"], intersection_blocks=S["intersection_blocks"], covered_variants=S["covered_variants"],
+                          assessed_pairs=S["assessed_pairs"], switches=S["switches"], hamming=S["hamming"], diff=S["diff"],
+                          sfsum=sum(S["sf"]), largest_len=S["largest_len"],
+                          blocks=[(b["positions"], b["switches"], b["hamming"], b["diff"], sum(b["sf"])) for b in S["blocks"]])
+                if o_ != s_:
+                    ctx.disagree("c11.runspec-oracle", {"t0": table_json(t0), "t1": table_json(t1)},
+                                 {k_: str(v) for k_, v in o_.items() if v != s_[k_]}, {k_: str(v) for k_, v in s_.items() if o_[k_] != v})
+            # (3) the Lean model (repaired flags)
+            mp = next((x for x in (mch["pairs"] if mch else []) if (x["i"], x["j"]) == (i, j)), None)
+            if mp is None or mp["result"] is None:
+                ctx.disagree("c11.runspec", req, "model has no result for " + str(key), S)
+                continue
+            R = mp["result"]
+            m_ = dict(het0=mp["het0"], intersection_blocks=R["intersection_blocks"], covered_variants=R["covered_variants"],
+                      assessed_pairs=R["assessed_pairs"], switches=R["total"]["switches"], sf=R["total"]["sf"], hamming=R["total"]["hamming"],
+                      diff=R["total"]["diff"], largest_len=R["largest_len"],
+                      largest=(R["largest"]["switches"], R["largest"]["sf"], R["largest"]["hamming"], R["largest"]["diff"]),
+                      bed=R["bed"], blocks=[(b[0], b[1]["switches"], b[1]["sf"], b[1]["hamming"], b[1]["diff"]) for b in R["per_block"]])
+            L = S["largest"]
+            w_ = dict(het0=pr["het0"], intersection_blocks=S["intersection_blocks"], covered_variants=S["covered_variants"],
+                      assessed_pairs=S["assessed_pairs"], switches=S["switches"], sf=S["sf"], hamming=S["hamming"], diff=S["diff"],
+                      largest_len=S["largest_len"],
+                      largest=(L["switches"], L["sf"], L["hamming"], L["diff"]) if L else (0, [0, 0], 0, 0),
+                      bed=S["bed"], blocks=[(b["positions"], b["switches"], b["sf"], b["hamming"], b["diff"]) for b in S["blocks"]])
+            if m_ != w_:
+                ctx.disagree("c11.runspec", req, {k_: str(v) for k_, v in m_.items() if v != w_[k_]},
+                             {k_: str(v) for k_, v in w_.items() if m_[k_] != v})
+        if mch is not None and not mch["died"] and mch["bed"] != sc["bed"]:
+            ctx.disagree("c11.runspec", req, {"bed": mch["bed"]}, {"bed": sc["bed"]})
+
 
 def rand_hap(rng, n, alphabet=(0, 1)):
     return [rng.choice(alphabet) for _ in range(n)]
@@ -1231,6 +1344,14 @@ def _run(ctx, rng, lib, d):
             nv = (2, 4)          # tiny: few pairs, every data set may disagree somewhere
         scen = G.Scenario(rng, p, k, n_chroms=rng.choice([1, 1, 2]), n_var=nv, **kw)
         check_cli(ctx, scen, d, n_relabel=2 if quick else 3)
+
+    # ---- many intersection blocks, each with switches AND flips (round 10: the totals are sums over the blocks — an accumulation
+    # bug in one column, e.g. flips taken as a maximum, needs >= 2 blocks with a non-zero value each)
+    for it in range((5 if quick else 40) * scale):
+        scen = G.Scenario(rng, 2, 2, n_chroms=1, n_var=(24, 40), p_switch=0.15, p_flip=0.35, cut=0.12, p_unphased=0.03, p_hom=0.03,
+                          p_missing=0.02, interleave=0.1)
+        ctx.dist("cli_many_blocks", True)
+        check_cli(ctx, scen, d, n_relabel=1)
 
     glue_stream(ctx, rng, d, (40 if quick else 400) * scale)
 
